@@ -18,7 +18,7 @@ add("C04", "model_checking",
     "LinenoColumner.__init__/error_message run on a symbolic text (any Unicode, bounded length, sharded by number of line breaks); every "
     "start offset is compared with the textbook 1-based (line, column). Exhaustion = holds for all texts in the bound. A concrete "
     "cross-check through the real asttokens on the repository's rejected models is reported beside it.",
-    "asttokens' node->offset mapping is trusted (stubbed in the symbolic part). One open known finding (columns shifted by +1 on lines >= 2).")
+    "asttokens' node->offset mapping is trusted (stubbed in the symbolic part). The column shift found here (+1 on every line after the first) was repaired.")
 
 add("C16", "model_checking",
     "bounded symbolic execution (CrossHair/z3) of retree.parse/render/render_pointer on a symbolic pattern + z3 (QF_LIA) language equivalence of pattern and rendering",
@@ -121,7 +121,7 @@ add("C10", "translation_validation",
     "dispatches on modelType) and compared field by field; a valid document with ONE mutation at a symbolic position (value of a wrong JSON type, dropped key, renamed key, replaced root) may be "
     "accepted or rejected, but only DeserializationException may be raised.",
     "JSON only: the generated xmlization sits on expat, which concretizes every symbolic value, so the XML clause is NOT claimed (see DESIGN.md). Floats are multiples of 0.5, byte arrays 0..2 bytes. "
-    "One open known finding (invalid base64 raises binascii.Error).")
+    "Two open known findings (invalid base64 / a non-ASCII string in place of base64 raise binascii.Error / UnicodeEncodeError instead of DeserializationException).")
 
 add("C29", "translation_validation",
     "bounded symbolic execution (CrossHair/z3) of the generated Python SDK's descend_once/descend/accept*/transform*/visitors/over_X_or_empty on instance graphs whose shape is symbolic, against an oracle derived from the intermediate representation",
@@ -162,7 +162,7 @@ add("C21", "model_checking",
     "bounded symbolic execution (CrossHair/z3) of every target's naming functions on a symbolic pair of different identifiers (collision search); each colliding path yields a witness which is decided on a real meta-model by the real front end and the real target verification",
     "For each scope (two properties, two classes, class and enumeration, two literals) and each of the eight targets the real naming functions run on two symbolic identifiers; every path on which two generated names "
     "coincide is a candidate whose witness is written into a meta-model: if the real front end accepts it, every target in which the names coincide must report an error from verify_for_types / generate.",
-    "Identifiers of <= 3 (4) characters over {a,b,A,B,_,1}; one witness per path class of the naming code reaches the generators (stated). Two open known findings (C#/Java literals, JSON property names).")
+    "Identifiers of <= 2 (4) characters over {a,b,A,B,_,1}; one witness per path class of the naming code reaches the generators (stated). Two open known findings (C#/Java literals, JSON property names).")
 
 add("C05", "model_checking",
     "solver-enumerated family of class DAGs (CrossHair/z3 forks over edge, abstract and model-type booleans) decoded into meta-model text, run through the real front end and compared with a reference closure / stacking / in-lining computation",
@@ -183,7 +183,7 @@ add("C07", "model_checking",
     "53 candidate invariants (well-typed and deliberately ill-typed) are each put alone on a class with str/int/bool/enum/list/Optional/nested properties; for every candidate accepted by the project's own acceptance "
     "test (smoke.main.execute = front end + schema inference + C# type and verification generation) and by python.lib.generate_verification, the source lambda is evaluated by CPython on an instance whose property "
     "values are all symbolic and type-conforming (None exactly where Optional): TypeError / AttributeError is a violation, IndexError is admitted.",
-    "Soundness direction only. 'Accepted' is read as smoke + Python generation because the front end proper runs no type inference (see DESIGN.md). Five open known findings (classes of ill-typed invariants which are accepted).")
+    "Soundness direction only. 'Accepted' is read as smoke + Python generation because the front end proper runs no type inference (see DESIGN.md). Six open known findings (classes of ill-typed invariants which are accepted).")
 
 add("C01", "model_checking",
     "solver-enumerated families (CrossHair/z3 over small integer genomes) of meta-model texts around every construct with positional/keyword arguments, each run through the real run.load_model",
